@@ -1,0 +1,35 @@
+//go:build verif
+// +build verif
+
+package rogger
+
+import "sync/atomic"
+
+// Verification hooks (build tag verif only). The flusher goroutine can be held between its poll of the
+// log queue and its blocking select, so that a test can enqueue an entry and request the flush inside
+// that window.
+
+var (
+	verifArmed   int32
+	verifReached = make(chan struct{})
+	verifResume  = make(chan struct{})
+)
+
+// VerifArmYield makes the flusher stop at its next pass through the yield point.
+func VerifArmYield() { atomic.StoreInt32(&verifArmed, 1) }
+
+// VerifWaitYield blocks until the flusher has reached the yield point.
+func VerifWaitYield() { <-verifReached }
+
+// VerifResumeYield lets the flusher continue.
+func VerifResumeYield() { verifResume <- struct{}{} }
+
+func verifYield() {
+	if atomic.CompareAndSwapInt32(&verifArmed, 1, 0) {
+		verifReached <- struct{}{}
+		<-verifResume
+	}
+}
+
+// VerifQueueLen returns the number of queued log entries.
+func VerifQueueLen() int { return len(logQueue) }
